@@ -6,7 +6,7 @@
 (* observed object.  Tags select the value pattern (position-tagged, or the   *)
 (* boundary patterns 1000 zero / 2000 ones / 3000 top bit / 4000 low bit).    *)
 EXTENDS OFBuilder
-CONSTANTS Family, Tags, Stride, Phase
+CONSTANTS Family, Tags, Stride, Phase, Count, Seed
 VARIABLE c
 Obs4(n) == << <<"len", n>>, <<"marshal", n>>, <<"len", n>>, <<"marshal", n>> >>
 Watch(els) == Flat([i \in DOMAIN els |-> << <<"len", els[i].n>>, <<"marshal", els[i].n>> >>])
@@ -178,10 +178,38 @@ NextT == \E shape \in {"instr-then-actions", "ct-then-nat-ranges", "instr-then-c
                       LET sp == LearnSpecEl("s1", "lv", 24, tag) IN
                       EmitTDK(<<"l">>, El("m", [T |-> "PacketOut"], sp.ops \o <<New("m", "NewPacketOut", <<>>), Set("m", "Xid", Xid(tag)), New("l", "NewNXActionLearn", <<>>),
                                  Call("m", "AddAction", <<Ref("l")>>), Set("l", "LearnSpecs", <<Ref("s1")>>), Call("m", "SetData", <<V(tag, 10)>>)>>))
+
+\* pseudo-random deep shapes: longer and mixed lists than the exhaustive families reach.  Choices are a deterministic hash of
+\* (scenario index, position salt, Seed), so every scenario is reproducible from its index.
+Rnd(i, salt, n) == (((i * 7919 + salt * 104729 + Seed * 611953) % 1000003) * 31 + salt) % n
+KindAt(i, salt) == LeafActSeq[1 + Rnd(i, salt, Len(LeafActSeq))]
+RandAct(n, i, salt, depth) ==
+  LET r == Rnd(i, salt, 12)  tag == 1 + Rnd(i, salt + 1, 250) IN
+  IF depth > 0 /\ r < 2
+  THEN CtEl(n, [k \in 1..Rnd(i, salt + 2, 4) |-> LeafAct(Nm(n, k), KindAt(i, salt + 10 * k), 1 + Rnd(i, salt + 10 * k + 1, 250))], tag, r = 1)
+  ELSE LeafAct(n, KindAt(i, salt + 3), tag)
+RandActs(n, i, salt, maxn) == [k \in 1..Rnd(i, salt, maxn + 1) |-> RandAct(Nm(n, k), i, salt + 100 * k, 1)]
+RandInstr(n, i, salt) ==
+  LET k == Rnd(i, salt, 4) IN
+  CASE k = 0 -> Goto(n, 1 + Rnd(i, salt + 1, 250)) [] k = 1 -> WriteMeta(n, 1 + Rnd(i, salt + 1, 250))
+    [] OTHER -> LET acts == RandActs(n, i, salt + 5, 6) IN
+                InstrActs(n, IF k = 2 THEN "apply" ELSE "write", [q \in DOMAIN acts |-> <<acts[q], Rnd(i, salt + 7 * q, 2) = 1>>])
+RandFields(n, i, salt) == [k \in 1..Rnd(i, salt, 7) |-> LET row == 1 + Rnd(i, salt + 3 * k, NMF) IN
+                             MF(Nm(n, k), row, 1 + Rnd(i, salt + 3 * k + 1, 250), Rnd(i, salt + 3 * k + 2, 2) = 1 /\ MFTable[row][4] # 0)]
+NextR == \E i \in 1..Count :
+           LET shape == Rnd(i, 1, 5)  tag == 1 + Rnd(i, 2, 250)
+               fm == FlowModEl("m", Rnd(i, 3, 5), RandFields("f", i, 1000), [j \in 1..Rnd(i, 4, 5) |-> RandInstr("i" \o ToString(j), i, 2000 + 500 * j)], tag)
+               el == CASE shape \in {0, 1} -> fm
+                       [] shape = 2 -> GroupModEl("m", Rnd(i, 5, 3), Rnd(i, 6, 4),
+                                                   [j \in 1..Rnd(i, 7, 5) |-> BucketEl("b" \o ToString(j), RandActs("b" \o ToString(j) \o "a", i, 3000 + 400 * j, 4), 1 + Rnd(i, 8 + j, 250))], tag)
+                       [] shape = 3 -> PacketOutEl("m", RandActs("a", i, 5000, 6), (<<0, 1, 14, 60, 300>>)[1 + Rnd(i, 9, 5)], tag)
+                       [] shape = 4 -> BundleAddPropsEl("w", fm, Rnd(i, 10, 3), tag) IN
+           /\ c' = <<i>>
+           /\ Emit("R", el, <<>>)
 Init == c = <<>>
 Next == c = <<>> /\ CASE Family = "A1" -> NextA1 [] Family = "A2" -> NextA2 [] Family = "M1" -> NextM1 [] Family = "M2" -> NextM2
                       [] Family = "MR" -> NextMR [] Family = "I" -> NextI [] Family = "G" -> NextG [] Family = "S" -> NextS
                       [] Family = "W" -> NextW [] Family = "O" -> NextO [] Family = "P" -> NextP [] Family = "B" -> NextB
-                      [] Family = "L" -> NextL [] Family = "N" -> NextN [] Family = "T" -> NextT
+                      [] Family = "L" -> NextL [] Family = "N" -> NextN [] Family = "T" -> NextT [] Family = "R" -> NextR
 Spec == Init /\ [][Next]_c
 =============================================================================
